@@ -74,6 +74,9 @@ class Scenario:
             npat = r.randint(1, 2)
             kinds = r.sample(["version", "pep440", "quoted"], npat)
             lines = [f"# file {fn} line 0 ünïcode", "unrelated = one.two-three"]
+            if r.random() < 0.3:
+                # characters str.splitlines() would split on, a BOM, a stray CR / LF of the *other* style
+                lines[0] = r.choice(["\ufeff", ""]) + lines[0] + r.choice([" form\x0cfeed", " vt\x0btab", " ls\u2028sep", " nel\x85", " fs\x1c", " lone\rCR" if self.sep == "\r\n" else " x"])
             occ = []
             pats = []
             same_line = npat == 2 and r.random() < 0.25
@@ -116,8 +119,17 @@ class Scenario:
                 self.fault = "nomatch"
         self.tags = []
         self.scope = r.choice(["default", "default", "global", "branch"])
+        self.cli_scope = r.choice([None, None, None, "default", "global", "branch"])
         if self.commit and r.random() < 0.5:
             self.tags = [fam["mk"](r) for _ in range(r.randint(1, 4))] + ["junk", "v-not-a-version", "2023.02.30"]
+        # a tag on another branch that equals the version this bump will produce (uniqueness, C09/C06)
+        self.conflict = False
+        eff_scope = self.cli_scope or self.scope
+        if self.commit and eff_scope == "branch" and self.set_version is None and self.pattern in ("MAJOR.MINOR.PATCH", "{semver}") and r.random() < 0.5:
+            a_, b_, c_ = [int(x) for x in self.current.split(".")]
+            nxt = {"--patch": f"{a_}.{b_}.{c_ + 1}", "--minor": f"{a_}.{b_ + 1}.0", "--major": f"{a_ + 1}.0.0"}[self.flags[0]]
+            self.tags = ["junk", nxt, "junk2"]  # merged listing = tags[:-2] = ["junk"]: the conflicting tag is only on another branch
+            self.conflict = True
         self.dirty = r.choice(["", "", "", "?? untracked.txt\n", " M notes_other.txt\n"]) if self.commit else ""
         self.allow_dirty = r.random() < 0.3
         self.fail_cmd = r.choice([None, None, None, "commit", "tag", "push"]) if self.commit else None
@@ -182,6 +194,8 @@ class Scenario:
             a.append("--dry")
         if self.allow_dirty:
             a.append("--allow-dirty")
+        if self.cli_scope is not None:
+            a += ["--tag-scope", self.cli_scope]
         if self.commit_message is not None:
             a += ["--commit-message", self.commit_message]
         if self.set_version is not None:
@@ -287,22 +301,26 @@ def check_scenario(seed, keep_dir=False):
                 valid_tags = [t for t in (script_tags(sc)) if re.fullmatch(fam["rx"], t)]
                 if valid_tags:
                     best = max(valid_tags, key=ref_key)
-                    if sc.scope == "default":
+                    if (sc.cli_scope or sc.scope) == "default":
                         start = best if ref_key(best) > ref_key(sc.current) else sc.current
                     else:
                         start = best
                 if old is not None and ref_key(old) != ref_key(start):
-                    res["C09"] = f"started from {old!r}, expected {start!r} (scope {sc.scope}, tags {sc.tags})"
+                    res["C09"] = f"started from {old!r}, expected {start!r} (config scope {sc.scope}, --tag-scope {sc.cli_scope}, tags {sc.tags})"
                 if not (ref_key(new) > ref_key(start)):
                     res["C01"] = f"announced {new!r} is not greater than start {start!r}"
                 all_valid = [t for t in sc.tags if re.fullmatch(fam["rx"], t)]
                 if new in all_valid:
                     res["C09"] = f"new version {new!r} equals an existing tag"
+        if sc.conflict and rc == 0:
+            res["C09"] = res["C06"] = f"new version {new!r} equals a tag on another branch but the update went through (exit 0)"
+        if sc.conflict and not sc.dry and [f for f in set(before) | set(after) if before.get(f) != after.get(f)]:
+            res["C06"] = f"new version rejected (tag conflict) but files changed (exit {rc})"
         # ---- C06 / C13: failures leave everything untouched
         if rc != 0 or sc.dry:
             changed = [f for f in set(before) | set(after) if before.get(f) != after.get(f)]
             blocking_dirty = bool(sc.dirty) and not sc.dirty.startswith("??") and not sc.allow_dirty
-            rewrite_failed = sc.fault is not None or new is None or blocking_dirty
+            rewrite_failed = sc.fault is not None or new is None or blocking_dirty or sc.conflict
             if changed and (sc.dry or rewrite_failed):
                 res["C06" if not sc.dry else "C13"] = f"exit {rc} but files changed: {changed}"
             if (sc.dry or rewrite_failed) and mutating:
@@ -384,7 +402,7 @@ def check_scenario(seed, keep_dir=False):
 
 
 def script_tags(sc):
-    if sc.scope == "branch":
+    if (sc.cli_scope or sc.scope) == "branch":
         return sc.tags[: max(0, len(sc.tags) - 2)] if sc.tags else []
     return sc.tags
 
